@@ -313,7 +313,10 @@ Record rst := Rst {
   rs_live : live;                       (* live templates by the specified semantics *)
   rs_undo : option (bytes * node * bytes);      (* last op: successful insert of t; dump, display before it *)
   rs_before : option (bool * bytes * list (bytes * sres)); (* last successful mutation (insert?, t) and the searches before it *)
-  rs_searches : list (bytes * sres) }.  (* searches since the last mutation *)
+  rs_searches : list (bytes * sres);    (* searches since the last mutation *)
+  rs_same : option (bool * list (bytes * sres)) }.
+  (* answers this state must reproduce: (true, searches before an insert that has just been deleted again)
+     or (false, searches before a call that returned an error) *)
 
 Definition state := list (N * rst).
 
@@ -334,7 +337,7 @@ Definition BUILTIN_NAMES : list bytes :=
 Definition BUILTIN_TYPES : list bytes :=
   map w ["u8"; "u16"; "u32"; "u64"; "u128"; "usize"; "i8"; "i16"; "i32"; "i64"; "i128"; "isize";
          "f32"; "f64"; "bool"; "core::net::ip_addr::Ipv4Addr"; "core::net::ip_addr::Ipv6Addr"]%string.
-Definition new_rst : rst := Rst empty_node [] (combine BUILTIN_NAMES BUILTIN_TYPES) [] None None [].
+Definition new_rst : rst := Rst empty_node [] (combine BUILTIN_NAMES BUILTIN_TYPES) [] None None [] None.
 
 Definition fl (c : bool) (k : fkind) (d : list bytes) : list finding := if c then [] else [(k, d)].
 
@@ -385,6 +388,14 @@ Definition check_search (x : rst) (path : bytes) (r : sres) : list finding :=
         | None => []
         end
       | None => []
+      end)
+  ++ (match rs_same x with
+      | Some (rt, olds) =>
+        match List.find (fun pr : bytes * sres => beqb (fst pr) path) olds with
+        | Some (_, old) => fl (sres_eqb old r) (if rt then FRoundtrip else FNoop) [path]
+        | None => []
+        end
+      | None => []
       end).
 
 Definition check_insert (x : rst) (t : bytes) (d : N) (r : result insert_err unit) (rendered : bytes)
@@ -426,7 +437,8 @@ Definition check_insert (x : rst) (t : bytes) (d : N) (r : result insert_err uni
   (Rst dump disp (rs_cons x) lv'
        (if ok then Some (t, rs_dump x, rs_disp x) else None)
        (if ok then Some (true, t, rs_searches x) else rs_before x)
-       (if ok then [] else rs_searches x), fs).
+       (if ok then [] else rs_searches x)
+       (if ok then None else Some (false, rs_searches x)), fs).
 
 Definition check_delete (x : rst) (t : bytes) (r : result delete_err N) (rendered : bytes)
            (dump : node) (disp : bytes) : rst * list finding :=
@@ -472,7 +484,13 @@ Definition check_delete (x : rst) (t : bytes) (r : result delete_err N) (rendere
     ++ (if ok then [] else fl (node_eqb (rs_dump x) dump && beqb (rs_disp x) disp) FNoop [t]) in
   (Rst dump disp (rs_cons x) lv' None
        (if ok then Some (false, t, rs_searches x) else rs_before x)
-       (if ok then [] else rs_searches x), fs).
+       (if ok then [] else rs_searches x)
+       (if ok
+        then match rs_undo x, rs_before x with
+             | Some (t0, _, _), Some (true, t1, olds) => if beqb t0 t && beqb t1 t then Some (true, olds) else None
+             | _, _ => None
+             end
+        else Some (false, rs_searches x)), fs).
 
 Definition check_constraint (x : rst) (name ty : bytes) (r : result constraint_err unit) (rendered : bytes)
   : rst * list finding :=
@@ -491,7 +509,7 @@ Definition check_constraint (x : rst) (name ty : bytes) (r : result constraint_e
        | RPanic _ => []
        end in
   (Rst (rs_dump x) (rs_disp x) (match r with ROk _ => rs_cons x ++ [(name, ty)] | _ => rs_cons x end)
-       (rs_live x) (rs_undo x) (rs_before x) (rs_searches x), fs).
+       (rs_live x) (rs_undo x) (rs_before x) (rs_searches x) None, fs).
 
 Definition check_parse (t : bytes) (r : out (list expansion)) (rendered : bytes) : list finding :=
   let m := parse t in
@@ -540,7 +558,7 @@ Definition step (s : state) (e : event) : state * list finding :=
       | SPanic => (s, [(FPanic, [p])])
       | SRes r =>
         (set_r s rid (Rst (rs_dump x) (rs_disp x) (rs_cons x) (rs_live x) (rs_undo x) (rs_before x)
-                          ((p, r) :: rs_searches x)),
+                          ((p, r) :: rs_searches x) (rs_same x)),
          check_search x p r)
       end
     | None => (s, [(FUnknownRouter, [])])
